@@ -164,6 +164,11 @@ class SparseDense(Dense_):
     def __iter__(self) -> Iterator:
         sort = sorted(self._values.items())
 
+        if not sort:
+            #no value is stored so every position holds the default
+            yield from repeat(0,self._length)
+            return
+
         yield from repeat(0,sort[0][0])
         yield sort[0][1]
 
